@@ -7,6 +7,7 @@ import TTProofs.Lemmas.C02_Data
 import TTProofs.Lemmas.C01_Patterns
 import TTProofs.Lemmas.C01_Main
 import TTProofs.Lemmas.C01_Tables
+import TTProofs.Lemmas.C01_Tree
 /-!
 # C02 — the likelihood is invariant to how the same tree and data are written down
 
@@ -178,6 +179,20 @@ theorem tipStates_vs_partials {R : Type} [CommSemiring R] {K : Nat}
 section reroot
 variable {L : Type} [AddCommMonoid L] {R : Type} [CommSemiring R] {K S : Nat}
   {π : Fin S → R} {P : L → Fin K → Fin S → Fin S → R}
+
+/-- the branch `UnRootedTreeModel` drops (`blens[:-1]`, index `2n−3`) and `_call` re-creates with length zero is one
+    of the two ROOT branches: the root's right child when that is internal, otherwise its left child; the root
+    itself is numbered `2n−2`.  Together with `reroot_edge` this is why the `2n−3` stored lengths plus one zero
+    represent the unrooted tree. -/
+theorem unrooted_zero_branch_is_root_branch (n : Nat) (l r : BTree)
+    (hn : (BTree.node l r).leaves.length = n) :
+    ∃ il ir, setupIndexes n (.node l r) = .node (2 * n - 2) il ir ∧
+      ((∃ a b, r = .node a b) → ir.idx = 2 * n - 3) ∧
+      ((∃ t, r = .leaf t) → (∃ a b, l = .node a b) → il.idx = 2 * n - 3) :=
+  root_child_last n l r hn
+
+example : setupIndexes 3 (.node (.node (.leaf 2) (.leaf 0)) (.leaf 1)) = .node 4 (.node 3 (.leaf 2) (.leaf 0)) (.leaf 1) := by
+  decide
 
 /-- only the SUM of the two root branch lengths matters (this is why `UnRootedTreeModel` may store
     `a+b` on one root child and `0` on the other, whichever child that is) -/
